@@ -35,6 +35,8 @@ X64 = [
     _t("mark", "movl ${imm},%eax", "b800000000", imm=(1, 4)),
     _t("lea", "leaq {sym}(%rip),%rax", "488d0500000000", symfield=(3, 4)),
     _t("load", "movl {sym},%eax", "8b042500000000", symfield=(3, 4)),
+    # a pc-relative operand that is not the last field of the instruction (an immediate follows it)
+    _t("cmpm", "cmpl $1,{sym}(%rip)", "833d0000000001", symfield=(2, 4)),
     _t("jmp", "jmp {sym}", "eb00", "jmp", (1, 1)),
     _t("jmp32", "jmp {sym}", "e900000000", "jmp", (1, 4), patch=False),
     _t("je", "je {sym}", "7400", "jcc", (1, 1)),
@@ -92,6 +94,7 @@ MIPS32 = [
 X64_INTEL = {
     "nop": "nop", "nop2": "xchg ax,ax", "nop3": "nop dword ptr [rax]", "xor": "xor eax,eax",
     "push": "push rax", "pop": "pop rax", "mark": "mov eax,{imm}", "lea": "lea rax,[rip+{sym}]",
+    "cmpm": "cmp dword ptr [rip+{sym}],1",
     "jmp": "jmp {sym}", "je": "je {sym}", "call": "call {sym}", "ijmp": "jmp rax", "icall": "call rax", "ret": "ret",
 }
 
